@@ -61,7 +61,8 @@ def _spec_cart(streams, depth, names):
             continue
         for combo in itertools.product(*[by[n] for n in names]):
             suffix = [g.split(".")[-1] for _, g in combo]
-            out.append((".".join([pre] + suffix) if depth == 1 else None, dict(zip(names, [pl for pl, _ in combo]))))
+            out.append((".".join(([pre] if pre else []) + suffix) if depth == 1 else None,
+                        dict(zip(names, [pl for pl, _ in combo]))))
     return out
 
 
@@ -72,7 +73,24 @@ class C02(Prop):
     MAX_WORKERS = 8
     COQ_SHARD = 60
     CASE_TIMEOUT = 120
-    LEVEL_TEXT = ""   # set below, after the theorems were settled
+    LEVEL = "proof"
+    LEVEL_TEXT = ("PARTIAL. Proved in Coq (closed under the global context) over a hand-written model of the combinators: "
+                  "the dot product on one tag emits, for any number of ports and every arrival order, nothing before the "
+                  "last arrival and then exactly one combination holding every port's token, and any two arrival orders "
+                  "give the same combination; three _refuted theorems exhibit the input classes in which the faithful "
+                  "model breaks the property text (a tag and its ancestor on one port of a dot product; a cartesian "
+                  "combinator with an inner combinator; a cartesian combinator over tokens of different depth). The "
+                  "general statements (several tags, broadcast of parent tags, cartesian cross product and composite "
+                  "tags, nesting) are NOT proved: they are decided case by case by an oracle written from the property "
+                  "text on the real code (combine() and CombinatorStep.run) under all / many arrival permutations, and the "
+                  "model (dict order, pop from the right, tag re-binding, exceptions included) is compared with the real "
+                  "code on every such run.")
+    LEVEL_NOTE = ("Only the one-tag dot product is a universally quantified theorem; everything else about C02 rests on "
+                  "differential testing against the model plus the text oracle. Trusted: Coq kernel + vm_compute; the "
+                  "hand-written model Comb/Model.v; CPython dict/deque/itertools. Loop combinators are not covered here. "
+                  "No axioms.")
+    TECHNIQUE = ("Coq proof (closed-form state invariant over arrival lists) for the one-tag dot product + vm_compute "
+                 "correspondence of an executable model against the real combinators + text oracle")
     RULE = ("combinator trees of depth <= 2 (dot / cartesian depth 1..2, outer over ports and flat inner combinators), "
             "0..4 tokens per port, tags of depth 1..3 rooted at 0 with multi-digit components, uniform-depth, parent/"
             "child mixes across ports and (rarely) a tag and its ancestor on one port; every case is run from a fresh "
@@ -251,9 +269,16 @@ class C02(Prop):
 
     def impl_run(self, case):
         runs = []
-        fn = self._run_step if case.get("mode") == "step" else self._run_combine
-        for order in case["orders"]:
-            runs.append(self.loop.run_until_complete(fn(case, order)))
+        step = case.get("mode") == "step"
+        fn = self._run_step if step else self._run_combine
+        try:
+            for order in case["orders"]:
+                runs.append(self.loop.run_until_complete(fn(case, order)))
+        finally:
+            if step and self.ctx is not None:
+                # aiosqlite's worker thread is not a daemon: close it or the worker process never exits
+                ctx, self.ctx = self.ctx, None
+                self.loop.run_until_complete(ctx.database.close())
         return {"runs": runs}
 
     # ---------------------------------------------------------------- oracle (from the property text)
@@ -305,7 +330,11 @@ class C02(Prop):
             byport.setdefault(p, []).append(t)
         anc = any(a != b and _comparable(a, b) or (a == b and i != j)
                   for ts in byport.values() for i, a in enumerate(ts) for j, b in enumerate(ts))
-        return "ancestor-pair-on-port" if anc else "antichain-ports"
+        if "cart" in _label(case["comb"]) and len({t.count(".") for _, _, t in case["tokens"]}) > 1:
+            return "mixed-depth"
+        if anc:
+            return "ancestor-pair-on-port"
+        return "antichain-ports"
 
     def oracle(self, case, obs):
         if "crash" in obs or "hang" in obs:
@@ -373,7 +402,12 @@ class C02(Prop):
         return len({t[0] for t in c["tokens"]}) >= 2 and len(c["orders"]) >= 2
 
     def signature(self, c, o, clause):
-        return f"{_label(c['comb'])}/{clause}/{self._klass(c)}"
+        # family of combinator tree / oracle clause / class of input tags
+        lab = _label(c["comb"])
+        if lab.startswith("cart-"):
+            return f"cart-nested/{clause}" if clause == "raises" else f"cart-nested/{clause}/{self._klass(c)}"
+        fam = "cart" if "cart" in lab else "dot"
+        return f"{fam}/{clause}/{self._klass(c)}"
 
     def shrink(self, c):
         toks = c["tokens"]
